@@ -83,8 +83,8 @@ class Ctx:
         self.ins_steps = [s for s in self.steps if s.produces == "instruction"]
         self.langs = {}
         for s in self.steps:
-            if s.regex_text is not None and s.produces in ("instruction", "label", "empty_instruction"):
-                self.langs[s.method] = self.ll.blind(s.regex_text)
+            # every step of the cascade is a language: an earlier step that accepts a line hijacks it
+            self.langs[s.method] = self.ll.step_lang(s)
 
     def ask(self, name, r):
         v, w = self.q.check(r)
@@ -319,7 +319,7 @@ def translator_validation(ctx, n_each=3):
     """solver-chosen members / non-members of each step's language vs Python's re.match on the real constant"""
     run = ctx.run
     for s in ctx.steps:
-        if s.method not in ctx.langs:
+        if s.method not in ctx.langs or s.regex_text is None or getattr(s, "lowered", False):
             continue
         U = ctx.ll.seg([(0, "[\\t -~]*")])
         rgx = re.compile(s.regex_text)
@@ -519,7 +519,7 @@ def c10_extra(ctx):
     return obs.stringified_instructions == a1 + "::" + m1 + "," + o1 + "," + o2 + ",|" + a2 + "::" + m2 + ",,|"
 '''
         hs.append(ch.H(f"c10/record/{tag}", src, timeout=T, prelude=C10_PRE, key="record_format", note="two instructions (2 operands / none) + a byte-continuation pseudo instruction that must be dropped"))
-    hs += [h for h in c09.harnesses(tier()) if any(x in h.name for x in ("/mem4/", "/mem3/", "/mem1/", "/mem0/", "/pair", "/mem4_nobase/"))]
+    hs += [h for h in c09.harnesses(tier()) if any(x in h.name for x in ("/mem4/", "/mem3/", "/mem1/", "/mem0/", "/pair", "/mem4_nobase/", "/mem3_suffix/", "/mem0_suffix/"))]
     ch.run_harnesses(run, hs)
 
 
